@@ -220,6 +220,7 @@ func (r *repo) idle() bool {
 // ---- harness ------------------------------------------------------------------------
 
 type dbModel struct {
+	allowed  map[int]bool // nodes registered at some moment since the configuration that asks for unassigned shards was stored
 	shards   int
 	rf       int
 	replicas map[int][]int // shard -> replicas as first seen
@@ -259,6 +260,11 @@ func (r *run) nodeUp(i int) {
 	_ = r.repo.Put(context.Background(), constants.GetStorageLiveNodePath(fmt.Sprint(i)), data)
 	r.up[i] = true
 	r.aliveU[i] = true
+	for _, m := range r.dbs {
+		if m.allowed != nil {
+			m.allowed[i] = true
+		}
+	}
 }
 
 func (r *run) nodeDown(i int) {
@@ -290,6 +296,7 @@ func (r *run) apply(op core.Op) {
 			return
 		}
 		m := &dbModel{shards: int(op.A), rf: int(op.B), replicas: map[int][]int{}}
+		m.allowed = r.copyUp(nil)
 		r.dbs[op.T] = m
 		r.putDB(op.T, m)
 	case "grow":
@@ -298,6 +305,11 @@ func (r *run) apply(op core.Op) {
 			return
 		}
 		m.shards += int(op.A)
+		if len(m.replicas) < m.shards-int(op.A) {
+			m.allowed = r.copyUp(m.allowed) // earlier shards are still waiting for their assignment
+		} else {
+			m.allowed = r.copyUp(nil)
+		}
 		r.putDB(op.T, m)
 	case "dropdb":
 		if r.dbs[op.T] == nil {
@@ -324,6 +336,16 @@ func (r *run) apply(op core.Op) {
 			r.repo.notify(state.EventTypeModify, kv.Key, kv.Value)
 		}
 	}
+}
+
+func (r *run) copyUp(into map[int]bool) map[int]bool {
+	if into == nil {
+		into = map[int]bool{}
+	}
+	for n := range r.up {
+		into[n] = true
+	}
+	return into
 }
 
 // startMaster: what OnFailOver does - a fresh state manager and fresh state machines on the same repository, in an
@@ -470,8 +492,10 @@ func (r *run) check(after string) {
 				return
 			}
 			for _, n := range got {
-				if !r.aliveU[n] {
-					c.Violate("C18/replica-on-dead-node", "%s: %s shard %d placed on node %d which was not alive when the assignment was made (alive: %v)", after, dbName(i), sid, n, keys(r.aliveU))
+				// alive at creation: registered at some moment between the storing of the configuration that asked for
+				// the shard and now (the master reads the registrations when it makes the assignment)
+				if !r.aliveU[n] || (m.allowed != nil && !m.allowed[n]) {
+					c.Violate("C18/replica-on-dead-node", "%s: %s shard %d placed on node %d which was not alive when the assignment was made (registered since the configuration was stored: %v)", after, dbName(i), sid, n, keys(m.allowed))
 					return
 				}
 			}
